@@ -263,8 +263,10 @@ def check(case):
             res.label("layout:files-as-arguments")
         if prog.get("hook_faults"):
             res.label("hook-fault")
-        if any(c.get("raises") for c in prog.get("cleanups", [])):
+        if any(c.get("raises") for c in prog.get("cleanups", [])) or ref.cleanup_error_elems:
             res.label("raising-cleanup")
+            if prog.get("cleanup_msg") and not valid_xml_text(prog["cleanup_msg"]):
+                res.label("raising-cleanup:hostile-message")
         res.nontrivial = bool(hostile) and failing > 0
     finally:
         proj.close()
@@ -273,7 +275,7 @@ def check(case):
 
 @st.composite
 def case_st(draw):
-    prog = draw(gen.program_st(max_features=2, max_items=3,
+    prog = draw(gen.program_st(max_features=2, max_items=3, with_cleanup=True,
                                outcomes=["pass", "pass", "fail", "raise", "undefined", "pending", "skip", "convert"],
                                cfg=gen.cfg_st(flags=("stop", "dry_run"), p_tags=0.3)))
     hostile = draw(st.integers(0, 3)) != 0
@@ -302,6 +304,11 @@ def case_st(draw):
                                 s["emit"]["stderr"] = draw(emitted_text())
                             if o != "pass":
                                 s["emit"]["msg"] = draw(emitted_text())
+    from ..harness import _all_step_lists
+    if hostile and (prog.get("cleanups") or any(st_.get("cl") == "raise" for f in prog["features"]
+                                                  for lst in _all_step_lists(f) for st_ in lst)):
+        # the exception of a raising cleanup carries hostile text as well
+        prog["cleanup_msg"] = draw(free_text())
     userdata = {}
     for name in ("show_hostname", "show_multiline", "show_scenarios", "show_tags", "show_timings", "show_timestamp",
                  "show_skipped_always"):
@@ -336,7 +343,7 @@ def explore(rec):
 
 
 def required_labels(tier):
-    return ["hostile", "hostile:output>1KiB", "hostile-scenario-name", "failing-scenario", "no-skipped", "hook-fault", "raising-cleanup",
+    return ["hostile", "hostile:output>1KiB", "hostile-scenario-name", "failing-scenario", "no-skipped", "hook-fault", "raising-cleanup", "raising-cleanup:hostile-message",
             "userdata:show_skipped_always", "userdata:show_scenarios", "reports:2", "layout:sub-directory",
             "layout:equally-named-files", "layout:files-as-arguments", "cli:LC_ALL=C", "cli:non-ascii-names"]
 
